@@ -139,12 +139,8 @@ fn scss_path(p: &Path, fmt: Fmt) -> Out {
 }
 
 fn panic_site(p: &str) -> String {
-    // "file:line:col: message" -> "file:line"
-    let mut it = p.split(':');
-    match (it.next(), it.next()) {
-        (Some(f), Some(l)) => format!("{f}:{l}"),
-        _ => p.to_string(),
-    }
+    // file + normalised message (no line number): survives unrelated edits
+    vp::rs::panic_site(p)
 }
 
 /// Hide the run-specific scratch directory in observations.
